@@ -412,6 +412,19 @@ def FxN.command (c : FxCmd α) : (n : Nat) → FxN α n → FxN α n
   | 0, e => FxOver.command c e
   | _ + 1, e => FxOver.command c e
 
+/-- a handle method of an effect nested in delay feedback loops: `path = []` is the effect itself, `i :: rest`
+    the `i`-th feedback effect of a delay (then `rest` inside it).  The nested effect owns its command slots
+    (the handle returned by `add_feedback_effect` writes them directly); they are read when the enclosing
+    delay forwards `on_start_processing`.
+    mirrors: effect/delay.rs::DelayBuilder::add_feedback_effect -/
+def FxN.commandAt (c : FxCmd α) : (n : Nat) → List Nat → FxN α n → FxN α n
+  | n, [], e => FxN.command c n e
+  | 0, _ :: _, e => e
+  | n + 1, i :: rest, e =>
+    match (e : FxOver α (FxN α n)) with
+    | .delay d => FxOver.delay { d with fx := (d.fx.1.modify i (fun x => FxN.commandAt c n rest x), d.fx.2) }
+    | .base b => FxOver.base b
+
 /-! ### the system: renderer + the sample rate new tracks are initialised with -/
 
 /-- the audio side of an `AudioManager`: the renderer (mixer, clocks, modulators), and
@@ -552,6 +565,11 @@ def soundCommand (s : System α n) (sid : Nat) (c : Command α) : System α n :=
 /-- an effect handle method -/
 def fxCommand (s : System α n) (eid : Nat) (c : FxCmd α) : System α n :=
   s.withMixer (Mixer.mapComps (fun x => x) (fun e => if e.id = eid then { e with fx := FxN.command c n e.fx } else e))
+
+/-- a method of the handle of an effect nested (at `path`) in the effect whose handle is `eid` -/
+def fxCommandAt (s : System α n) (eid : Nat) (path : List Nat) (c : FxCmd α) : System α n :=
+  s.withMixer (Mixer.mapComps (fun x => x)
+    (fun e => if e.id = eid then { e with fx := FxN.commandAt c n path e.fx } else e))
 
 /-- mirrors: manager.rs::AudioManager::add_clock -/
 def addClock (s : System α n) (id : Nat) (speed : Value α (ClockSpeed α)) : System α n :=
